@@ -120,6 +120,12 @@ def _eval_cond(n, roles, rel):
 def _member(call, roles):
     """(owner role, element role) of <owner>->covariant_classes.find(<elem>) / .end() / .count(<elem>)"""
     callee = call["c"][0]
+    # a local alias of a set (`const auto& bases = (*b_iter)->transitive_bases;`) stands for what it is initialised with
+    locs = roles.get("__locals__") or {}
+    for x in list(astq.walk(callee)):
+        if x.get("k") == "DeclRefExpr" and x["ref"].get("did") in locs:
+            callee = {"k": "ParenExpr", "id": -1, "c": [callee, locs[x["ref"]["did"]]]}
+            break
     listed = [x["member"] for x in astq.walk(callee) if x.get("k") == "MemberExpr" and x.get("member") in LISTED_SETS]
     if listed:
         raise RegistrationDependent(listed[0])
@@ -191,9 +197,12 @@ def order_table(fn, funcs_by_name=None, swap=False, depth=0):
                 final = "flag"
             elif e.get("k") == "CXXBoolLiteralExpr":
                 final = "true" if e.get("v") else "false"
-    if flag is None or init is None or loop is None or final is None:
+    if loop is None or final is None:
         raise Unclassifiable("shape of " + fn["name"])
+    if flag is None:
+        init = None         # no result flag: the function answers by returns only (compared with the documented table as such)
     roles["__funcs__"] = funcs_by_name or {}
+    roles["__locals__"] = {d["did"]: d["init"] for n in astq.walk(loop["body"]) if n.get("k") == "DeclStmt" for d in n["decls"] if d.get("init") is not None}
     # the loop must advance both iterators together
     inc = loop.get("inc")
     adv = set()
@@ -214,7 +223,7 @@ def order_table(fn, funcs_by_name=None, swap=False, depth=0):
                 return True
             if n.get("k") == "BinaryOperator" and n.get("op") == "=":
                 l = astq.strip(n["c"][0])
-                return l.get("k") == "DeclRefExpr" and l["ref"]["did"] == flag
+                return flag is not None and l.get("k") == "DeclRefExpr" and l["ref"]["did"] == flag
             return False
         paths = astq.enum_paths(loop["body"], decide, want)
         if len(paths) != 1:
@@ -283,6 +292,19 @@ def size_decide(var_did, n_value):
     return decide
 
 
+def _atom_text(n):
+    """rendering of a guard atom that does not depend on local names: parameters by type, members by name"""
+    n = astq.strip(n)
+    if n is None:
+        return "?"
+    if n.get("k") == "DeclRefExpr":
+        st = n["ref"].get("storage")
+        return ("param:" if st == "param" else "var:") + (n.get("t") or "").replace("const ", "")
+    if n.get("k") == "MemberExpr":
+        return "*." + n["member"]
+    return astq.text(n)
+
+
 def guard_atoms(guards):
     """symbolic guards of a path -> frozenset of (text, polarity); conjunctions are split."""
     out = set()
@@ -295,7 +317,7 @@ def guard_atoms(guards):
         elif c0.get("k") == "UnaryOperator" and c0.get("op") == "!":
             add(c0["c"][0], not pol)
         else:
-            out.add((astq.text(c0), pol))
+            out.add((_atom_text(c0), pol))
     for c, pol in guards:
         add(c, pol)
     return frozenset(out)
